@@ -208,7 +208,28 @@ func runC01(c *Ctx) {
 		}
 		for _, re := range rejectOK {
 			start := re.to()
-			isEC := func(ci ssa.CallInstruction) bool { return errorCode != nil && core.StaticCallee(ci) == errorCode }
+			// a call reports the rejection if it is ErrorCode, or a helper of package wire in which every path from the
+			// entry to a return passes an ErrorCode call
+			var reportsVia func(fn *ssa.Function, depth int) bool
+			reportsVia = func(h *ssa.Function, depth int) bool {
+				if errorCode == nil || h == nil {
+					return false
+				}
+				if h == errorCode {
+					return true
+				}
+				if depth == 0 || !c.P.InPkg(h, "wire") || len(h.Blocks) == 0 {
+					return false
+				}
+				inner := func(ci ssa.CallInstruction) bool { return reportsVia(core.StaticCallee(ci), depth-1) }
+				for b := range reachableAvoiding(h.Blocks[0], func(b *ssa.BasicBlock) bool { return blockHasCall(b, inner) }) {
+					if _, isRet := b.Instrs[len(b.Instrs)-1].(*ssa.Return); isRet {
+						return false
+					}
+				}
+				return true
+			}
+			isEC := func(ci ssa.CallInstruction) bool { return reportsVia(core.StaticCallee(ci), 2) }
 			reach := reachableAvoiding(start, func(b *ssa.BasicBlock) bool { return blockHasCall(b, isEC) })
 			bad := false
 			for b := range reach {
@@ -221,10 +242,32 @@ func runC01(c *Ctx) {
 				R.OK("C01.R2", fk+":reject-path-ErrorResponse", c.at(start.Instrs[0]), "every path from the rejecting edge passes through ErrorCode before returning", "must-pass-through over the CFG")
 			}
 			// SQLSTATE class of the ErrorCode calls in the reject region
+			var ecSites []ssa.CallInstruction
 			for _, ci := range callsIn(fn, isEC) {
 				if !re.dominates(ci.Block()) {
 					continue
 				}
+				if core.StaticCallee(ci) == errorCode {
+					ecSites = append(ecSites, ci)
+					continue
+				}
+				// the ErrorCode calls inside the reporting helper
+				var collect func(h *ssa.Function, depth int)
+				collect = func(h *ssa.Function, depth int) {
+					if h == nil || depth == 0 {
+						return
+					}
+					for _, inner := range core.Calls(h) {
+						if core.StaticCallee(inner) == errorCode {
+							ecSites = append(ecSites, inner)
+						} else if callee := core.StaticCallee(inner); callee != nil && c.P.InPkg(callee, "wire") {
+							collect(callee, depth-1)
+						}
+					}
+				}
+				collect(core.StaticCallee(ci), 2)
+			}
+			for _, ci := range ecSites {
 				code, ok := c.codeOfErr(ci.Common().Args[1])
 				R.Check(ok && len(code) == 5 && code[:2] == "28", "C01.R2", fk+":reject-sqlstate", c.at(ci), "the rejection is reported with an SQLSTATE of class 28",
 					"code "+code+" (codes.* variable with a constant initialiser that is never reassigned)", "SQLSTATE of the rejection is '"+code+"' (resolved="+sprintf("%v", ok)+"), not class 28")
